@@ -542,6 +542,10 @@ class ConcatHistories(Contract):
             [("add_iv", 0, "Au"), ("add_iv", 1, "Au"), ("update_iv", 0, "Au"), ("add_iv", 2, "Au"), ("remove", 1, "Au_iv"), ("reopen", 0, "")],
             [("add", 0, "Au"), ("add", 1, "Au"), ("add", 2, "Au"), ("remove", 0, "Au"), ("update", 1, "Au"), ("add", 0, "Au"), ("reopen", 0, "")],
             [("add_text", 0, "Au"), ("add_text", 1, "Au"), ("update_text", 0, "Au"), ("add_text", 2, "Au"), ("reopen", 0, "")],
+            # the entry edited / removed is the third (or later) of its channel: entries stored in front of it stay where they are
+            [("add", 0, "Au"), ("add", 1, "Au"), ("add", 2, "Au"), ("reopen", 0, ""), ("update", 2, "Au"), ("reopen", 0, "")],
+            [("add", 0, "Au"), ("add", 1, "Au"), ("add", 2, "Au"), ("remove", 2, "Au"), ("reopen", 0, ""), ("add", 2, "Au"), ("update", 2, "Au"), ("reopen", 0, "")],
+            [("add_text", 0, "Au"), ("add_text", 1, "Au"), ("add_text", 2, "Au"), ("update_text", 2, "Au"), ("reopen", 0, "")],
         ]
         for version in (2.0, 2.1):
             for ops in THREE:
